@@ -1,4 +1,5 @@
 import Cpppo.Proofs.Merge
+import Cpppo.Proofs.Poll
 import Cpppo.Generated.Tables
 
 /-!
@@ -187,3 +188,180 @@ theorem generated_cfg_wf :
     ({ coil := Generated.shatterCoilLimit, reg := Generated.shatterRegLimit,
        block := Generated.mergeBlock } : Cfg).WF := by decide
 end Cpppo.Merge
+
+/-!
+## The poll cycle built on `merge` (`poller_modbus._poller`, `_read`, `_store`)
+
+One turn of the polling loop polls exactly the merged ranges of the known addresses.  For every bank
+table in which no two Modbus functions share a 10000-block (checked for the table regenerated from the
+live `_read`), every reach, every device and every prior state:
+-/
+namespace Cpppo.Poll
+open Cpppo.Merge
+
+/-- the register kinds whose transfer limit is the coil limit: banks of bits lie inside the address
+ranges `shatter` counts as bits, banks of words outside them -/
+def BitAddr (a : Nat) : Prop := (1 ≤ a ∧ a ≤ 9999) ∨ (10001 ≤ a ∧ a ≤ 19999) ∨ (100001 ≤ a ∧ a ≤ 165536)
+
+instance (a : Nat) : Decidable (BitAddr a) := by unfold BitAddr; infer_instance
+
+def BanksLimitOK (banks : List Bank) : Prop :=
+  ∀ e ∈ banks, if e.2.2.1 ≤ 1
+    then (1 ≤ e.1 ∧ e.2.1 ≤ 9999) ∨ (10001 ≤ e.1 ∧ e.2.1 ≤ 19999) ∨ (100001 ≤ e.1 ∧ e.2.1 ≤ 165536)
+    else (e.2.1 < 1 ∨ 9999 < e.1) ∧ (e.2.1 < 10001 ∨ 19999 < e.1) ∧ (e.2.1 < 100001 ∨ 165536 < e.1)
+
+instance (banks : List Bank) : Decidable (BanksLimitOK banks) := by unfold BanksLimitOK; infer_instance
+
+section
+variable (banks : List Bank) (cfg : Cfg) (hcfg : cfg.WF) (reach : Nat) (dev : Dev) (st : PState)
+
+/-- **A poll cycle stores only known addresses: it neither creates nor drops one.** -/
+theorem cycle_keys : (pollCycle banks cfg reach dev st).data.map (·.1) = st.data.map (·.1) := by
+  unfold pollCycle
+  split
+  · rfl
+  · exact fold_keys banks dev _ _
+
+include hcfg
+
+/-- **Every known register is polled by exactly the merged range that contains it: afterwards it holds the
+device's value for its own address (function and offset of `_read`'s translation), or - when the read of
+that range failed - what it held before.** -/
+theorem cycle_value (hwf : BanksWF cfg.block banks) (hkeys : KeysValid banks st.data)
+    {x k o : Nat} {v : Option Nat} (hx : lookup st.data x = some v) (ht : translate banks x = some (k, o)) :
+    ∃ rngs r, merge cfg (keys st.data) reach none = some rngs ∧ r ∈ rngs ∧ InRange r x ∧
+      lookup (pollCycle banks cfg reach dev st).data x =
+        some (if (readRange banks dev r).isSome then some (dev.val k o) else v) := by
+  obtain ⟨kv, hkv, hkx⟩ := lookup_mem hx
+  have hreq : Requested (keys st.data) x := ⟨(x, 1), by simp only [keys, List.mem_map]; exact ⟨kv, hkv, by rw [hkx]⟩,
+    by simp [InRange]⟩
+  cases hm : merge cfg (keys st.data) reach none with
+  | none =>
+    have := (merge_none_iff cfg (keys st.data) reach none).mp hm
+    simp only [keys, List.map_eq_nil_iff] at this
+    rw [this] at hkv; simp at hkv
+  | some rngs =>
+    obtain ⟨r, hr, hrx⟩ := merge_covers cfg hcfg (keys st.data) reach none rngs hm x hreq
+    have hbank : ∀ q ∈ keys st.data, InBank cfg.block q := by
+      intro q hq
+      simp only [keys, List.mem_map] at hq
+      obtain ⟨kv, _, rfl⟩ := hq
+      simp only [InBank]
+      have := Nat.lt_mul_div_succ kv.1 hcfg.2.2
+      rw [Nat.mul_comm] at this
+      omega
+    have hpw := (merge_sorted_disjoint cfg hcfg (keys st.data) reach none rngs hm hbank).1
+    refine ⟨rngs, r, rfl, hr, hrx, ?_⟩
+    unfold pollCycle
+    simp only [hm]
+    rw [fold_lookup_in banks dev rngs hpw _ r hr x hrx v hx]
+    obtain ⟨_, k', off, hk', hcell, _⟩ := piece_translate hcfg.1 hcfg.2.1 hwf hkeys hm r hr
+    cases hrd : readRange banks dev r with
+    | none => simp
+    | some vals =>
+      have hv := readRange_eq hk' hrd
+      have hxt := hcell x hrx.1 hrx.2
+      rw [ht] at hxt
+      simp only [Option.some.injEq, Prod.mk.injEq] at hxt
+      subst hv
+      simp only [Option.isSome_some, ↓reduceIte, Option.some.injEq]
+      have hlt : x - r.1 < r.2 := by simp only [InRange] at hrx; omega
+      simp [cells, hlt, hxt.1, hxt.2]
+
+/-- **With a device that answers, one cycle brings every known register up to date, and the poller is online.** -/
+theorem cycle_fresh (hwf : BanksWF cfg.block banks) (hkeys : KeysValid banks st.data)
+    (hdev : ∀ k o, dev.bad k o = false)
+    {x k o : Nat} {v : Option Nat} (hx : lookup st.data x = some v) (ht : translate banks x = some (k, o)) :
+    lookup (pollCycle banks cfg reach dev st).data x = some (some (dev.val k o))
+    ∧ (pollCycle banks cfg reach dev st).online = true
+    ∧ (pollCycle banks cfg reach dev st).failing = [] := by
+  obtain ⟨rngs, r, hm, hr, hrx, hval⟩ := cycle_value banks cfg hcfg reach dev st hwf hkeys hx ht
+  have hall : ∀ q ∈ rngs, (readRange banks dev q).isSome = true := by
+    intro q hq
+    obtain ⟨_, k', off, hk', _, _⟩ := piece_translate hcfg.1 hcfg.2.1 hwf hkeys hm q hq
+    rw [readRange_some hk' (fun i _ => hdev _ _)]; rfl
+  refine ⟨by rw [hval, hall r hr]; rfl, ?_, ?_⟩
+  · unfold pollCycle
+    simp only [hm]
+    rw [(fold_lists banks dev rngs _).1]
+    have : r ∈ rngs.filter fun r => (readRange banks dev r).isSome := List.mem_filter.mpr ⟨hr, hall r hr⟩
+    cases hf : rngs.filter fun r => (readRange banks dev r).isSome with
+    | nil => rw [hf] at this; simp at this
+    | cons a l => simp
+  · unfold pollCycle
+    simp only [hm]
+    rw [(fold_lists banks dev rngs _).2]
+    simp only [List.nil_append, List.filter_eq_nil_iff]
+    intro q hq
+    have := hall q hq
+    cases h : readRange banks dev q <;> simp_all
+
+/-- **Every request a cycle puts on the wire is non-empty, addresses one Modbus function only (each of its
+cells is the translation of a valid address of that function), and is no longer than that function's
+transfer limit.** -/
+theorem cycle_requests_ok (hwf : BanksWF cfg.block banks) (hlim : BanksLimitOK banks)
+    (hkeys : KeysValid banks st.data) :
+    ∀ q ∈ requests banks cfg reach st, 1 ≤ q.2.2 ∧ q.2.2 ≤ (if q.1 ≤ 1 then cfg.coil else cfg.reg) ∧
+      ∃ a, translate banks a = some (q.1, q.2.1) ∧
+        ∀ i, i < q.2.2 → translate banks (a + i) = some (q.1, q.2.1 + i) := by
+  intro q hq
+  unfold requests at hq
+  split at hq
+  · simp at hq
+  · rename_i rngs hm
+    simp only [List.mem_filterMap, Option.map_eq_some_iff] at hq
+    obtain ⟨r, hr, ko, hko, rfl⟩ := hq
+    obtain ⟨h1, k, off, hk, hcell, s1, o1, hs1, hle⟩ := piece_translate hcfg.1 hcfg.2.1 hwf hkeys hm r hr
+    rw [hk] at hko
+    simp only [Option.some.injEq] at hko
+    subst hko
+    show 1 ≤ r.2 ∧ r.2 ≤ (if k ≤ 1 then cfg.coil else cfg.reg) ∧
+      ∃ a, translate banks a = some (k, off) ∧ ∀ i, i < r.2 → translate banks (a + i) = some (k, off + i)
+    refine ⟨h1, ?_, r.1, hk, ?_⟩
+    · obtain ⟨e, he, he1, he2, hek, _⟩ := translate_some hs1
+      have hl := hlim e he
+      unfold defaultLimit at hle
+      rw [← hek] at hl
+      by_cases hk1 : k ≤ 1
+      · rw [if_pos hk1] at hl ⊢
+        rw [if_pos (by omega)] at hle
+        exact hle
+      · rw [if_neg hk1] at hl ⊢
+        rw [if_neg (by omega)] at hle
+        exact hle
+    · intro i hi
+      have := hcell (r.1 + i) (by omega) (by omega)
+      rw [this]
+      congr 2
+      omega
+
+end
+
+/-! ### tie to the live code and non-vacuity -/
+
+/-- the table regenerated from `poller_modbus._read` by scanning every address satisfies the hypotheses -/
+theorem generated_banks_wf : BanksWF Generated.mergeBlock Generated.modbusReadBanks := by decide
+
+theorem generated_banks_limit_ok : BanksLimitOK Generated.modbusReadBanks := by decide
+
+/-- only coils and holding registers are writable, at the same offsets as they are read -/
+theorem generated_write_banks :
+    ∀ e ∈ Generated.modbusWriteBanks, e ∈ Generated.modbusReadBanks ∧ (e.2.2.1 = 0 ∨ e.2.2.1 = 2) := by decide
+
+def demoDev : Dev := { val := fun k o => 1000 * k + o, bad := fun k o => k == 3 && o == 7 }
+def demoState : PState := { data := [(40003, none), (1, some 5), (40001, none), (30008, some 9), (3, none), (30001, none)] }
+
+example : KeysValid Generated.modbusReadBanks demoState.data := by
+  intro kv hkv
+  simp only [demoState, List.mem_cons, List.not_mem_nil, or_false] at hkv
+  rcases hkv with rfl | rfl | rfl | rfl | rfl | rfl <;> exact ⟨_, _, rfl⟩
+
+/-- a cycle on a concrete state: two coils and two holding registers come back fresh through one request each,
+the input registers 30001..30008 travel in one request that fails (cell 7 is bad) and keep what they held -/
+example : (pollCycle Generated.modbusReadBanks cfg0 100 demoDev demoState).data
+      = [(40003, some 2002), (1, some 0), (40001, some 2000), (30008, some 9), (3, some 2), (30001, none)]
+    ∧ (pollCycle Generated.modbusReadBanks cfg0 100 demoDev demoState).polling = [(1, 3), (40001, 3)]
+    ∧ (pollCycle Generated.modbusReadBanks cfg0 100 demoDev demoState).failing = [(30001, 8)]
+    ∧ requests Generated.modbusReadBanks cfg0 100 demoState = [(0, 0, 3), (3, 0, 8), (2, 0, 3)] := by decide +kernel
+
+end Cpppo.Poll
